@@ -1,11 +1,86 @@
 import GrinVerif.Drv.Common
-/-! Driver glue for the `deseg` domain (stub; the domain's owner fills it in). -/
+import GrinVerif.Model.Deseg
+/-! Driver glue for the `deseg` domain: the state machine of `chain/src/txhashset/desegmenter.rs`
+(`Model/Deseg.lean`) folded over the lines of `harness/src/bin/deseg.rs`.
+
+    deseg new <hB> <hO> <hR> <hK> <outSize> <kerSize> <gOut> <gKer> => <bitmap leaf count> <bitmap mmr size>
+    deseg apply                       => <ok|err:Class|panic> <output size> <rangeproof size> <kernel size>
+    deseg check                       => 0|1
+    deseg want <max>                  => [kind:height:idx,...]
+    deseg iscomplete                  => 0|1
+    deseg add <kind> <h> <idx> <valid> <jump> <extra> => ok|InvalidSegmentHeight|NonExistent|Invalid
+
+Everything is an internal observable of the state machine (`cmpModel`), except the answer to a
+segment of another height, which the property's repair fixes (`cmpSpec`). -/
 namespace GV.Drv.DesegD
-open GV GV.Drv
+open GV GV.Drv GV.Seg GV.Deseg
 
 structure St where
-  dummy : Nat := 0
+  d : Option Deseg.St := none
 
-def handle (st : St) (_args : List String) (_impl : String) : St × Verdict := (st, .unknown)
+def kindOf : Nat → Option Kind
+  | 0 => some .bitmap
+  | 1 => some .output
+  | 2 => some .rangeproof
+  | 3 => some .kernel
+  | _ => none
+
+def kindNo : Kind → Nat
+  | .bitmap => 0
+  | .output => 1
+  | .rangeproof => 2
+  | .kernel => 3
+
+def showAdd : AddRes → String
+  | .ok => "ok"
+  | .invalidSegmentHeight => "InvalidSegmentHeight"
+  | .nonExistent => "NonExistent"
+  | .invalid => "Invalid"
+
+def showWant (l : List (Kind × Ident)) : String :=
+  "[" ++ ",".intercalate (l.map fun x => s!"{kindNo x.1}:{x.2.height}:{x.2.idx}") ++ "]"
+
+def bit (b : Bool) : String := if b then "1" else "0"
+
+def handle (st : St) (args : List String) (impl : String) : St × Verdict :=
+  match args with
+  | ["new", hb, ho, hr, hk, outSize, kerSize, gOut, gKer] =>
+    match nat? hb, nat? ho, nat? hr, nat? hk, nat? outSize, nat? kerSize, nat? gOut, nat? gKer with
+    | some hb, some ho, some hr, some hk, some o, some k, some go, some gk =>
+      let d := Deseg.St.new hb ho hr hk o k go gk
+      ({ d := some d }, cmpModel s!"{d.bmLeafCount} {d.bmSize}" impl)
+    | _, _, _, _, _, _, _, _ => (st, .unknown)
+  | ["apply"] =>
+    match st.d with
+    | some d =>
+      let d' := d.applyNextSegments
+      -- the model has no failing apply: a misapplied segment (one that starts beyond the local MMR)
+      -- is where the real code fails or corrupts the MMR
+      let res := if d'.misapplied then "misapplied" else "ok"
+      ({ d := some d' }, cmpModel s!"{res} {d'.out.size} {d'.rp.size} {d'.ker.size}" impl)
+    | none => (st, .unknown)
+  | ["check"] =>
+    match st.d with
+    | some d => (st, cmpModel (bit d.checkProgress) impl)
+    | none => (st, .unknown)
+  | ["want", max] =>
+    match st.d, nat? max with
+    | some d, some max =>
+      let r := d.nextDesiredSegments max
+      ({ d := some r.1 }, cmpModel (showWant r.2) impl)
+    | _, _ => (st, .unknown)
+  | ["iscomplete"] =>
+    match st.d with
+    | some d => (st, cmpModel (bit d.isComplete) impl)
+    | none => (st, .unknown)
+  | ["add", kind, h, idx, valid, jump, extra] =>
+    match st.d, (nat? kind).bind kindOf, nat? h, nat? idx, nat? valid, nat? jump, nat? extra with
+    | some d, some k, some h, some idx, some valid, some jump, some extra =>
+      let x : SegIn := { id := ⟨h, idx⟩, valid := valid != 0, jump := jump, extra := extra }
+      let r := d.addSegment k x
+      let v := if h ≠ d.heightOf k then cmpSpec (showAdd r.2) impl else cmpModel (showAdd r.2) impl
+      ({ d := some r.1 }, v)
+    | _, _, _, _, _, _, _ => (st, .unknown)
+  | _ => (st, .unknown)
 
 end GV.Drv.DesegD
